@@ -53,3 +53,8 @@ def run(ctx):
     S.r04_5_strip_tags(ctx, 'R05.18', keep_core=True)
     from . import memo_rules as M
     M.memo_sound(ctx, 'R05.M')
+    # round 11: the round trip holds for the n-th object dumped through one dump function, not only for the first - the dump side
+    # keeps nothing between calls (a name list parked on the Representer at factory time and then edited in place loses
+    # _yatiml_extra from the second object on)
+    D.r06_3_purity(ctx, 'R05.19')
+    D.r11_1_calltime_writes(ctx, 'R05.20', modules=('yatiml.dumper', 'yatiml.representers'))
